@@ -179,6 +179,9 @@ func CheckC06(r *core.Run) {
 		c.ReopenPct = 8
 		c.LagMax = 12
 		c.BigPct = 25
+		if i%2 == 1 {
+			c.FaultPct = 30
+		}
 	})
 	budget := crashBudget{MaxBits: r.Pick(5, 9), Random: r.Pick(4, 24), Seed: r.Seed}
 	traces := make([]*core.Trace, len(cfgs))
